@@ -165,15 +165,19 @@ pub fn run(ctx: &mut Ctx, replay: Option<&[String]>) {
     // heavy lines: a row and a column of weight 33 ... 90 (index lists longer than any batch size a writer might use), entries inserted
     // in random order; compared character by character with the model like every other matrix
     for _ in 0..ctx.scale(12, 200) {
-        let (nr, nc) = (rng.range(40, 100), rng.range(40, 100));
+        // (every fourth: weights 255 ... 320 -- a weight must not be kept in 8 bits anywhere in the writer)
+        let big = rng.chance(1, 4);
+        let (nr, nc) = if big { (rng.range(257, 330), rng.range(257, 330)) } else { (rng.range(40, 100), rng.range(40, 100)) };
         let mut h = SparseMatrix::new(nr, nc);
         let (hr, hc) = (rng.below(nr), rng.below(nc));
         let mut cols: Vec<usize> = (0..nc).collect();
         for i in (1..nc).rev() { cols.swap(i, rng.below(i + 1)); }
-        for &c in cols.iter().take(rng.range(33, nc.min(90))) { h.insert(hr, c); }
+        let wr = if big { *rng.pick(&[255usize, 256, 257, nc.min(300), nc]) } else { rng.range(33, nc.min(90)) };
+        for &c in cols.iter().take(wr) { h.insert(hr, c); }
         let mut rows: Vec<usize> = (0..nr).collect();
         for i in (1..nr).rev() { rows.swap(i, rng.below(i + 1)); }
-        for &r in rows.iter().take(rng.range(33, nr.min(90))) { h.insert(r, hc); }
+        let wc = if big { *rng.pick(&[255usize, 256, 257, nr.min(300), nr]) } else { rng.range(33, nr.min(90)) };
+        for &r in rows.iter().take(wc) { h.insert(r, hc); }
         for _ in 0..rng.below(40) { h.insert(rng.below(nr), rng.below(nc)); }
         ctx.emit(&format!("c08 w {}", sm(&h)), &write_res(&h), true, &["write-matrix-with-heavy-row-and-column"]);
         for text in [h.alist(), h.alist_no_padding()] {
